@@ -3384,6 +3384,137 @@ fn small_case(case: u64, rng: &mut Rng, rep: &mut Report) {
     }
 }
 
+/// stream `erased-json`: TopDocs ordered by `SortByErasedType` on a JSON numeric path whose
+/// column type differs between segments (integers only -> i64 column, floats only or mixed -> f64
+/// column): the merged page compares values of different numeric types. Integers are even,
+/// floats are k + 0.5, so values of different types never tie and every value is exact as f64;
+/// every document has the value (no None placement involved). Oracle: sort of all (value,
+/// address) pairs, ties by ascending address.
+fn erased_json_case(case: u64, rng: &mut Rng, rep: &mut Report) {
+    let mut sb = Schema::builder();
+    let attrs = sb.add_json_field("attrs", tantivy::schema::JsonObjectOptions::default().set_fast(None));
+    let idf = sb.add_u64_field("id", tantivy::schema::FAST);
+    let index = Index::create_in_ram(sb.build());
+    let mut w: tantivy::IndexWriter = match index.writer_with_num_threads(1, 20_000_000) {
+        Ok(w) => w,
+        Err(e) => {
+            rep.violation("api-error:erased-json:writer", json!({"error": e.to_string()}));
+            return;
+        }
+    };
+    w.set_merge_policy(Box::new(tantivy::indexer::NoMergePolicy));
+    rep.eval();
+    let nseg = rng.urange(2, 4);
+    let mut value_of: BTreeMap<u64, f64> = BTreeMap::new();
+    let mut next_id = 0u64;
+    let mut modes = vec![];
+    for seg in 0..nseg {
+        let mode = if seg < 2 { seg as u64 } else { rng.below(3) };
+        modes.push(["ints", "floats", "mixed"][mode as usize]);
+        for _ in 0..rng.urange(1, 14) {
+            let is_int = match mode {
+                0 => true,
+                1 => false,
+                _ => rng.bool(),
+            };
+            let k = rng.below(41) as i64 - 20;
+            let mut doc = tantivy::TantivyDocument::default();
+            let v = if is_int {
+                doc.add_object(attrs, [("x".to_string(), OwnedValue::I64(2 * k))].into_iter().collect());
+                (2 * k) as f64
+            } else {
+                doc.add_object(attrs, [("x".to_string(), OwnedValue::F64(k as f64 + 0.5))].into_iter().collect());
+                k as f64 + 0.5
+            };
+            doc.add_u64(idf, next_id);
+            value_of.insert(next_id, v);
+            next_id += 1;
+            if let Err(e) = w.add_document(doc) {
+                rep.violation("api-error:erased-json:add_document", json!({"error": e.to_string()}));
+                return;
+            }
+        }
+        if let Err(e) = w.commit() {
+            rep.violation("api-error:erased-json:commit", json!({"error": e.to_string()}));
+            return;
+        }
+    }
+    let searcher = match index.reader() {
+        Ok(r) => r.searcher(),
+        Err(e) => {
+            rep.violation("api-error:erased-json:reader", json!({"error": e.to_string()}));
+            return;
+        }
+    };
+    let mut all: Vec<(f64, DocAddress)> = vec![];
+    let mut col_types = vec![];
+    for (ord, sr) in searcher.segment_readers().iter().enumerate() {
+        let Ok(ids) = sr.fast_fields().u64("id") else {
+            rep.harness_error("erased-json: no id column".to_string());
+            return;
+        };
+        for doc in 0..sr.max_doc() {
+            let Some(id) = ids.first(doc) else {
+                rep.harness_error("erased-json: doc without id".to_string());
+                return;
+            };
+            all.push((value_of[&id], DocAddress::new(ord as u32, doc)));
+        }
+        let t = if sr.fast_fields().i64("attrs.x").is_ok() { "i64" } else if sr.fast_fields().f64("attrs.x").is_ok() { "f64" } else { "other" };
+        col_types.push(t);
+    }
+    let distinct_types: HashSet<&str> = col_types.iter().copied().collect();
+    for (cmp, name) in [(ComparatorEnum::Natural, "natural"), (ComparatorEnum::Reverse, "reverse")] {
+        let mut expected = all.clone();
+        expected.sort_by(|a, b| {
+            let by_value = a.0.partial_cmp(&b.0).unwrap_or(Ordering::Equal);
+            let by_value = if name == "natural" { by_value.reverse() } else { by_value };
+            by_value.then(a.1.cmp(&b.1))
+        });
+        for _ in 0..4 {
+            let limit = rng.urange(1, all.len() + 2);
+            let offset = if rng.bool() { 0 } else { rng.usize_below(all.len() + 1) };
+            let collector = TopDocs::with_limit(limit).and_offset(offset).order_by((SortByErasedType::for_field("attrs.x"), cmp));
+            let got: Vec<(OwnedValue, DocAddress)> = match searcher.search(&tantivy::query::AllQuery, &collector) {
+                Ok(g) => g,
+                Err(e) => {
+                    rep.violation(format!("erased-json:{name}:api-error:search"), json!({"case": case, "error": e.to_string(), "segments": modes}));
+                    return;
+                }
+            };
+            let want: Vec<(f64, DocAddress)> = expected.iter().skip(offset).take(limit).cloned().collect();
+            let got_n: Vec<(Option<f64>, DocAddress)> = got
+                .iter()
+                .map(|(v, a)| {
+                    (
+                        match v {
+                            OwnedValue::I64(i) => Some(*i as f64),
+                            OwnedValue::U64(u) => Some(*u as f64),
+                            OwnedValue::F64(x) => Some(*x),
+                            _ => None,
+                        },
+                        *a,
+                    )
+                })
+                .collect();
+            rep.count("erased_json_pages_compared", 1);
+            let same = got_n.len() == want.len() && got_n.iter().zip(&want).all(|(g, w)| g.0 == Some(w.0) && g.1 == w.1);
+            if !same {
+                rep.violation(
+                    format!("erased-json:{name}:page-differs-from-the-sorted-corpus[column-types={}]", if distinct_types.len() > 1 { "mixed-across-segments" } else { "same" }),
+                    json!({"case": case, "limit": limit, "offset": offset, "segments": modes, "column_types": col_types,
+                           "got": got_n.iter().take(8).map(|(v, a)| json!([v, a.segment_ord, a.doc_id])).collect::<Vec<_>>(),
+                           "expected": want.iter().take(8).map(|(v, a)| json!([v, a.segment_ord, a.doc_id])).collect::<Vec<_>>()}),
+                );
+                return;
+            }
+        }
+    }
+    if distinct_types.len() > 1 {
+        rep.nontrivial(format!("erased-json:{}", col_types.join("+")));
+    }
+}
+
 fn main() {
     let ctx = Ctx::from_env("C06", "exploration");
     let quick = ctx.quick();
@@ -3391,6 +3522,7 @@ fn main() {
     let mut rep = run_cases(&ctx, "topk", n, |c, rng, rep| case(c, rng, rep, quick));
     let n_small = N_PINNED + ctx.scale(150, 3000) as u64;
     rep.merge(run_cases(&ctx, "small", n_small, |c, rng, rep| small_case(c, rng, rep)));
+    rep.merge(run_cases(&ctx, "erased-json", if quick { 300 } else { 20000 }, erased_json_case));
     simple_finish(
         &ctx,
         rep,
